@@ -191,7 +191,12 @@ def native_lf(rng, ns, windows, version="NP2.4"):
             for sh, inf in conv.shank_info.items():
                 sr = spikeglx.Reader(inf["lf_file"], sort=False)
                 nlf = -(-ns // 12)
-                lf = np.fromfile(inf["lf_file"], dtype=np.int16).reshape(-1, len(inf["chns"]))
+                lf = np.fromfile(inf["lf_file"], dtype=np.int16)
+                if lf.size % len(inf["chns"]):
+                    bad.append(("lf file is not a whole number of frames", wdw, sh, int(lf.size), len(inf["chns"])))
+                    sr.close()
+                    continue
+                lf = lf.reshape(-1, len(inf["chns"]))
                 if lf.shape[0] != nlf:
                     bad.append(("count", wdw, sh, lf.shape[0], nlf))
                 if sr.shape != lf.shape or sr.fs != 2500:
